@@ -1172,6 +1172,77 @@ func (m *sim) stepArchive(v view) {
 	m.s.Probe("archive-round-trip")
 }
 
+// stepArchiveOptions archives a view and extracts it with strip-components and a path
+// matcher into a fresh bucket; the result must be exactly the stripped, matched objects.
+func (m *sim) stepArchiveOptions(v view) {
+	if m.viewUndefined(v) || walkFails(v) {
+		return
+	}
+	want := v.contents().objs
+	strip := 1 + m.tp.Draw("ostrip", 2)
+	useMatcher := m.tp.Draw("omatch", 2) == 1
+	useZip := m.tp.Draw("ozip", 2) == 1
+	match := func(p string) bool { return !useMatcher || strings.HasSuffix(p, ".proto") }
+	expect := map[string]string{}
+	for k, c := range want {
+		parts := strings.Split(k, "/")
+		if len(parts) <= strip {
+			continue
+		}
+		stripped := strings.Join(parts[strip:], "/")
+		if !match(stripped) {
+			continue
+		}
+		if _, dup := expect[stripped]; dup {
+			return // two objects land on one path: which one survives is archive order, not modelled
+		}
+		expect[stripped] = c
+	}
+	var keys []string
+	for k := range expect {
+		keys = append(keys, k)
+	}
+	if !prefixFree(keys) {
+		return
+	}
+	var buf bytes.Buffer
+	var err error
+	if useZip {
+		err = storagearchive.Zip(m.ctx, v.rb(), &buf, true)
+	} else {
+		err = storagearchive.Tar(m.ctx, v.rb(), &buf)
+	}
+	if err != nil {
+		m.violate("archive-round-trip", "archive-options", "archiving %s failed: %v", v.label(), err)
+		return
+	}
+	out := storagemem.NewReadWriteBucket()
+	var matcher func(string) bool
+	if useMatcher {
+		matcher = match
+	}
+	if useZip {
+		err = storagearchive.Unzip(m.ctx, bytes.NewReader(buf.Bytes()), int64(buf.Len()), out,
+			storagearchive.UnzipWithStripComponentCount(uint32(strip)), storagearchive.UnzipWithFilePathMatcher(matcher))
+	} else {
+		err = storagearchive.Untar(m.ctx, bytes.NewReader(buf.Bytes()), out,
+			storagearchive.UntarWithStripComponentCount(uint32(strip)), storagearchive.UntarWithFilePathMatcher(matcher))
+	}
+	if err != nil {
+		m.violate("archive-round-trip", "archive-options", "extracting %s with strip=%d failed: %v", v.label(), strip, err)
+		return
+	}
+	got, err := simfs.Snapshot(m.ctx, out)
+	if err != nil {
+		panic(err)
+	}
+	if d := diff(expect, got); d != "" {
+		m.violate("archive-round-trip", "archive-options", "extracting %s with strip=%d matcher=%v zip=%v differs from the model: %s", v.label(), strip, useMatcher, useZip, d)
+	}
+	m.s.Event("archive-options %s zip=%v strip=%d matcher=%v n=%d", v.label(), useZip, strip, useMatcher, len(got))
+	m.s.Probe("archive-with-options")
+}
+
 // stepHostileArchive feeds an archive with hostile entry names to Untar/Unzip.
 func (m *sim) stepHostileArchive(v view) {
 	for _, b := range v.roots() {
@@ -1506,8 +1577,13 @@ func Run(tp *tape.Tape, env *engine.Env) *engine.Outcome {
 				m.stepPluginResponse(v)
 			}
 		case op == 19:
-			name = "archive"
-			m.stepArchive(v)
+			if tp.Draw("archopts", 3) == 2 {
+				name = "archive-options"
+				m.stepArchiveOptions(v)
+			} else {
+				name = "archive"
+				m.stepArchive(v)
+			}
 		default:
 			name = "get"
 			m.stepGetOpen(v)
